@@ -203,9 +203,11 @@ if __name__ == "__main__":
         "a peer's tags are forgotten when its last connection is disconnected, and a regular trim may drop the buffered early tags of a peer "
         "that holds no connection (both are the code's documented design; the monitor accepts the second only when the implementation reports the peer absent)",
         "a manager with low = 0 or high = 0 is disabled by configuration: the 'at most low-watermark connections remain' clause is not demanded of it",
-        "precondition 0 <= low watermark (a hypothesis the proof forced: NewConnManager accepts any int, and with a negative low the clause "
-        "'at most low-watermark connections remain' is unsatisfiable); the harness uses low in 0..7",
-        "the background trim loop runs the same trim(); the harness sets the silence period so that it never fires inside a case",
+        "a negative low watermark (NewConnManager accepts any int) is read as 0 by the monitor's 'at most low-watermark connections remain' clause; "
+        "no precondition on the configuration is left in the theorems; the harness uses low in -1..7",
+        "the background loop's trim() is the same getConnsToClose + close as TrimOpenConns: in the theorems it is a TrimOpenConns issued by the environment at any "
+        "point (sequential model: a Trim op anywhere in the history; LTS: ABegin whenever no trim is in flight); NOT modelled: that loop calls trim() without trimMutex, so "
+        "it can overlap another trim - two trims in flight at once are outside the LTS; the harness sets the silence period so that the loop never fires inside a case",
     ]
     standard_flow(ctx, dict(
         coq_targets=["c14/Properties.vo", "c14/Extract.vo"],
